@@ -267,6 +267,33 @@ def keyword_bridge(ctx, d, goals, violate):
     return stats
 
 
+LOCALS = """#[diplomat::bridge]
+mod ffi {
+    use diplomat_runtime::DiplomatWrite;
+    #[diplomat::opaque]
+    pub struct Acc(pub i32);
+    impl Acc {
+        pub fn add(&self, result: i32) -> i32 { self.0 + result }
+        pub fn describe(&self, output: u8, out: &mut DiplomatWrite) { let _ = (output, out); }
+        pub fn describe_if(&self, write: bool, out: &mut DiplomatWrite) { let _ = (write, out); }
+    }
+}
+"""
+TRAIT_ATTRS = """#[diplomat::bridge]
+mod ffi {
+    #[diplomat::attr(not(supports = "traits"), disable)]
+    pub trait Visitor {
+        #[diplomat::attr(kotlin, rename = "visitNode")]
+        fn visit(&self, x: i32) -> i32;
+    }
+    #[diplomat::attr(not(supports = "traits"), disable)]
+    #[diplomat::opaque]
+    pub struct Walker(pub i32);
+    impl Walker {
+        pub fn walk(&self, v: impl Visitor) -> i32 { v.visit(self.0) }
+    }
+}
+"""
 GUARD = """#[diplomat::bridge]
 mod ffi {
     #[diplomat::attr(auto, namespace = "geo")]
@@ -460,6 +487,29 @@ def check(ctx, replay=None):
                 ctx.violation("cpp-include-guard-collision", {"lib_rs": GUARD, "what": "geo/Point.d.hpp and geo_Point.d.hpp share the include guard geo_Point_D_HPP: Both.hpp, which holds "
                                                               "both types by value, does not compile", "compiler": r.stderr[-600:]}, True)
                 break
+    # 4d. parameters named like the locals the generators introduce themselves (recorded finding when present)
+    lpath = os.path.join(d, "locals.rs")
+    open(lpath, "w").write(LOCALS)
+    bad_locals = []
+    for backend, file, std in (("c", "Acc.h", "c11"), ("cpp", "Acc.hpp", "c++17"), ("js", "Acc.mjs", None)):
+        o = os.path.join(d, "out_locals_" + backend)
+        q = e2e.run_tool(backend, lpath, o)
+        if q.returncode != 0:
+            continue
+        r = sh(["node", "--check", os.path.join(o, file)], timeout=120) if backend == "js" else e2e.syntax_only(os.path.join(o, file), [o], std, cxx=(backend == "cpp"))
+        compiles += 1
+        if r.returncode != 0:
+            bad_locals.append((backend, file, (r.stderr or r.stdout)[-300:]))
+    if bad_locals:
+        ctx.violation("generated-local-name-collision", {"lib_rs": LOCALS, "what": "parameters named `result`, `output`, `write` collide with names the generated code uses itself: " +
+                                                         ", ".join(f"{f} ({b})" for b, f, _ in bad_locals) + " do not compile / parse", "compiler": bad_locals[0][2]}, True)
+    # 4e. diplomat attributes on a trait and its methods: the tool reads them, the macro has to strip them (recorded finding when present)
+    dd, lib, p = e2e.bridge_crate("c09_trait", TRAIT_ATTRS, crate_types=("rlib",))
+    q = e2e.run_tool("c", os.path.join(dd, "src/lib.rs"), os.path.join(d, "out_trait_c"))
+    compiles += 1
+    if q.returncode == 0 and p.returncode != 0:
+        ctx.violation("macro-trait-attrs", {"lib_rs": TRAIT_ATTRS, "what": "a bridge with #[diplomat::attr(..)] on a trait is accepted by diplomat-tool but its macro expansion does not compile "
+                                            "(the attribute is left on the trait)", "rustc": p.stderr[-500:]}, True)
     dd, lib, p = e2e.bridge_crate("c09_this", THIS, crate_types=("rlib",))
     q = e2e.run_tool("c", os.path.join(dd, "src/lib.rs"), os.path.join(d, "out_this_c"))
     compiles += 1
